@@ -21,6 +21,7 @@ type dlRoles struct {
 	mu, timer, done, deadline, state, pending string
 	stStopped, stStarted, stExceeded          int64
 	problems                                  []string
+	armCalls                                  map[*ssa.Call]bool
 }
 
 func resolveDeadline(p *Prog) *dlRoles {
@@ -146,6 +147,10 @@ func (r *dlRoles) isArm(in ssa.Instruction) bool {
 	if c.Call.IsInvoke() && c.Call.Method.Name() == "Reset" && isFieldLoad(c.Call.Value, r.T, r.timer) {
 		return true
 	}
+	if helperCallee(c) != nil {
+		// a private helper that creates or re-arms the timer: its body is walked, the creating call inside counts
+		return false
+	}
 	if refs := c.Referrers(); refs != nil {
 		for _, rr := range *refs {
 			if st, ok := rr.(*ssa.Store); ok && sameOrigin(st.Val, ssa.Value(c)) && isFieldStore(st, r.T, r.timer) {
@@ -153,7 +158,34 @@ func (r *dlRoles) isArm(in ssa.Instruction) bool {
 			}
 		}
 	}
-	return false
+	// created inside a helper whose result is stored into the timer field
+	if r.armCalls == nil && r.Set != nil {
+		r.armCalls = map[*ssa.Call]bool{}
+		var expand func(v ssa.Value, d int)
+		expand = func(v ssa.Value, d int) {
+			for _, lf := range phiLeaves(strip(v)) {
+				cl, ok := strip(lf).(*ssa.Call)
+				if !ok {
+					continue
+				}
+				if h := helperCallee(cl); h != nil && d < 4 && h.Signature.Results().Len() == 1 {
+					for _, rv := range returnedValues(h, 0) {
+						expand(rv, d+1)
+					}
+					continue
+				}
+				r.armCalls[cl] = true
+			}
+		}
+		instrsOfU(r.Set, func(x ssa.Instruction) {
+			if st, ok := x.(*ssa.Store); ok && isFieldStore(st, r.T, r.timer) {
+				if cl, ok := st.Val.(*ssa.Call); ok && helperCallee(cl) != nil {
+					expand(cl, 0)
+				}
+			}
+		})
+	}
+	return r.armCalls[c]
 }
 
 func (r *dlRoles) isStop(in ssa.Instruction) bool {
